@@ -14,14 +14,19 @@ def sh(cmd, cwd=None, env=None, timeout=900):
     return r.returncode, (r.stdout + r.stderr)
 
 def main():
-    only = sys.argv[1:]
+    args = sys.argv[1:]
+    src_root, tag = "/tmp/mut", ""
+    if args and args[0] == "--round2":
+        src_root, tag = "/tmp/mut2", "r2"
+        args = args[1:]
+    only = args
     head = sh("git -C /repo rev-parse --short HEAD")[1].strip()
-    for pid in sorted(os.listdir("/tmp/mut")):
+    for pid in sorted(os.listdir(src_root)):
         if not re.fullmatch(r"C\d\d", pid):
             continue
         for mk in ("m1", "m2"):
-            src = f"/tmp/mut/{pid}/_mut/{mk}"
-            name = f"{pid}-{mk}"
+            src = f"{src_root}/{pid}/_mut/{mk}"
+            name = f"{pid}-{tag}{mk}"
             if only and name not in only and pid not in only:
                 continue
             if not os.path.exists(f"{src}/patch.diff"):
